@@ -23,6 +23,19 @@ func init() {
 	core.Register("C10", c10)
 }
 
+// chunkReader delivers at most max octets per Read and never fails.
+type chunkReader struct {
+	src io.Reader
+	max int
+}
+
+func (c *chunkReader) Read(p []byte) (int, error) {
+	if len(p) > c.max {
+		p = p[:c.max]
+	}
+	return c.src.Read(p)
+}
+
 func grp(i int) (dh.DHType, *big.Int, int) {
 	if i == 0 {
 		return dh.StrToType(libsa.DhNames[0]), ref.P1024, 128
@@ -300,6 +313,22 @@ func c09(c *core.Ctx) {
 		k.Count("low_draw_runs", 1)
 		k.Distinct(fmt.Sprintf("lowrun|%d", run))
 	})
+	// a source that only ever delivers short reads (never fails): same exponent as with full reads of the same stream
+	c.Family("short-read-source", c.N(40, 2000), func(k *core.Case) {
+		seed := k.R.U64()
+		var a, b *big.Int
+		var e1, e2 error
+		k.Eval(2)
+		mon.WithRand(core.NewRng(seed), func() { a, e1 = security.GenerateRandomNumber() })
+		mon.WithRand(&chunkReader{src: core.NewRng(seed), max: 1 + k.Index%7}, func() { b, e2 = security.GenerateRandomNumber() })
+		if e1 != nil || e2 != nil || a == nil || b == nil || a.Cmp(b) != 0 {
+			k.Violate("entropy", "short-reads-change-the-exponent", fmt.Sprintf("a source delivering at most %d octets per Read gives another (partly zero?) exponent: %v %v", 1+k.Index%7, e1, e2),
+				M{"full": fmt.Sprint(a), "short": fmt.Sprint(b)})
+			return
+		}
+		k.Count("short_read_sources", 1)
+		k.Distinct(fmt.Sprintf("short|%d", 1+k.Index%7))
+	})
 	c.Family("random-source-faults", c.N(24, 600), func(k *core.Case) {
 		mode := k.Index % 3
 		for failAt := 0; failAt < 6; failAt++ {
@@ -349,7 +378,7 @@ func c09(c *core.Ctx) {
 			}
 		}
 	})
-	c.Require("low_draw_runs", "lz_shared_1", "lz_shared_100+", "lz_public_100+", "below_minimum_retried", "fault_at_read_0", "lz_shared_searched")
+	c.Require("short_read_sources", "low_draw_runs", "lz_shared_1", "lz_shared_100+", "lz_public_100+", "below_minimum_retried", "fault_at_read_0", "lz_shared_searched")
 }
 
 // ---------------------------------------------------------------------------
@@ -508,6 +537,26 @@ func c10(c *core.Ctx) {
 			k.Distinct(fmt.Sprintf("fault|%d|%d|%d", kl, failAt, mode))
 		}
 	})
+	// a source that only ever delivers short reads (never fails): the IV must still be 16 fresh octets of the stream
+	c.Family("short-read-source", c.N(60, 3000), func(k *core.Case) {
+		kl := []int{16, 24, 32}[k.Index%3]
+		key := k.R.Bytes(kl)
+		ci, _ := newCipher(kl, key)
+		pt := k.R.Bytes(k.R.Intn(50))
+		seed := k.R.U64()
+		var full, short []byte
+		var e1, e2 error
+		k.Eval(2)
+		mon.WithRand(core.NewRng(seed), func() { full, e1 = ci.Encrypt(append([]byte{}, pt...)) })
+		mon.WithRand(&chunkReader{src: core.NewRng(seed), max: 1 + k.Index%5}, func() { short, e2 = ci.Encrypt(append([]byte{}, pt...)) })
+		if e1 != nil || e2 != nil || !bytes.Equal(full, short) {
+			k.Violate("entropy", "short-reads-change-the-ciphertext", fmt.Sprintf("a source delivering at most %d octets per Read gives a different (partly unfilled?) IV/padding: %v %v", 1+k.Index%5, e1, e2),
+				M{"full": core.Hex(full), "short": core.Hex(short)})
+			return
+		}
+		k.Count("short_read_sources", 1)
+		k.Distinct(fmt.Sprintf("short|%d|%d", kl, 1+k.Index%5))
+	})
 	c.Family("decrypt-exhaustive", 97*3, func(k *core.Case) {
 		kl := []int{16, 24, 32}[k.Index%3]
 		n := k.Index / 3
@@ -556,6 +605,20 @@ func c10(c *core.Ctx) {
 		key := k.R.Bytes(kl)
 		long, _ := newCipher(kl, key)
 		var lastCT []byte
+		type heldCT struct{ ct, snap, pt []byte }
+		var held []heldCT // ciphertexts the caller still holds: a later call must not change them
+		defer func() {
+			for i, h := range held {
+				if !bytes.Equal(h.ct, h.snap) {
+					k.Violate("history", "returned-ciphertext-overwritten-by-later-call", fmt.Sprintf("ciphertext #%d returned earlier by this object changed after later calls", i), M{"key": core.Hex(key)})
+					return
+				}
+				if back, err := long.Decrypt(append([]byte{}, h.ct...)); err != nil || !bytes.Equal(back, h.pt) {
+					k.Violate("history", "held-ciphertext-no-longer-decrypts", fmt.Sprint(err), M{"key": core.Hex(key)})
+					return
+				}
+			}
+		}()
 		for st := 0; st < 40; st++ {
 			fresh, _ := newCipher(kl, key)
 			seed := k.R.U64()
@@ -572,6 +635,7 @@ func c10(c *core.Ctx) {
 					return
 				}
 				lastCT = a
+				held = append(held, heldCT{a, append([]byte{}, a...), pt})
 			case 1:
 				if lastCT == nil {
 					continue
@@ -597,7 +661,7 @@ func c10(c *core.Ctx) {
 		}
 		k.Distinct(fmt.Sprintf("hist|%d|%d", kl, k.Index/3%8))
 	})
-	c.Require("fault_at_read_0", "fault_at_read_1", "lib_pad_0", "lib_pad_15")
+	c.Require("short_read_sources", "fault_at_read_0", "fault_at_read_1", "lib_pad_0", "lib_pad_15")
 }
 
 var _ = message.TypeSK
